@@ -77,6 +77,41 @@ pub fn gen_build_case(rng: &mut Rng, tier: Tier) -> BuiltCase {
   }
   let unstable = (rng.chance(50), rng.chance(50), false);
   let max_redirects = *rng.pick(&[10usize, 10, 2, 0]);
+  // valid npm: specifiers (no npm resolver: the loader answers them) and, with jsr specifiers passed
+  // through, valid jsr: specifiers (marked external at once); drawn last so that the rest of the world
+  // does not depend on them
+  let mut roots = roots;
+  if rng.chance(14) {
+    world.passthrough_jsr = rng.chance(65);
+    let k = world.entries.len();
+    let spec = format!("file:///p/pkgs{}.ts", k);
+    let mut src = ModSrc::default();
+    for _ in 0..rng.range(1, 3) {
+      let form = if rng.chance(25) { Form::Dynamic } else { Form::Static };
+      let text = if world.passthrough_jsr && rng.chance(55) {
+        (*rng.pick(&["jsr:@s/a@1", "jsr:@s/a@^1.2/sub", "jsr:@s/b", "jsr:@s/a@latest", "jsr:@s/a@1"])).to_string()
+      } else {
+        (*rng.pick(&["npm:chalk@5", "npm:@types/node@^20/fs", "npm:left-pad", "npm:chalk@5"])).to_string()
+      };
+      if text.starts_with("npm:") && !world.entries.contains_key(&text) {
+        match rng.below(10) {
+          0..=5 => {
+            world.entries.insert(text.clone(), Entry::External);
+          }
+          6 => {
+            world.entries.insert(text.clone(), Entry::Missing);
+          }
+          7 => {
+            world.entries.insert(text.clone(), Entry::Error);
+          }
+          _ => {} // nothing served
+        }
+      }
+      src.imports.push(Imp { form, text });
+    }
+    world.entries.insert(spec.clone(), Entry::Module { src, raw: None, headers: None });
+    roots.push(spec);
+  }
   BuiltCase { lock: None, world, roots, bcfg, unstable, max_redirects }
 }
 
@@ -104,6 +139,7 @@ pub fn real_build_locked(c: &BuiltCase, graph: &mut ModuleGraph, roots: &[String
     unstable_bytes_imports: c.unstable.0,
     unstable_text_imports: c.unstable.1,
     unstable_css_imports: c.unstable.2,
+    passthrough_jsr_specifiers: c.world.passthrough_jsr,
     executor: &exec,
     locker: if c.lock.is_some() { Some(&mut locker) } else { None },
     ..Default::default()
@@ -177,6 +213,8 @@ pub fn gen_case(seed: u64, k: u64, tier: Tier) -> Case {
       (if has_dyn { "with_dynamic".into() } else { "no_dynamic".into() }, 1),
       (if has_asset { "with_asset_load".into() } else { "no_asset_load".into() }, 1),
       ("loader_calls".to_string(), log.len() as u64),
+      (format!("npm_specifier_entries_{}", graph.specifiers().filter(|(s, _)| s.scheme() == "npm").count().min(3)), 1),
+      (format!("jsr_passthrough_{}_entries_{}", c.world.passthrough_jsr, graph.specifiers().filter(|(s, _)| s.scheme() == "jsr").count().min(3)), 1),
     ],
     direct_violations: vec![],
   }
